@@ -25,7 +25,11 @@ def one(cfg, out, tag):
         model = zoo.make(cfg.get("model", "Ex2"))
     model.delay_us = v.get("delay_us", 0)
     ins = cfg["sampler"] == "ins"
-    kw = (ins_kwargs if ins else std_kwargs)(cfg["kwargs"])
+    if v.get("same_kwargs"):
+        # the very same keyword-argument objects (nested dicts included) for both runs of the process, as in a script that defines its settings once
+        kw = _SHARED.setdefault("kw", (ins_kwargs if ins else std_kwargs)(cfg["kwargs"]))
+    else:
+        kw = (ins_kwargs if ins else std_kwargs)(cfg["kwargs"])
     pool = None
     if v.get("user_pool"):
         import multiprocessing
